@@ -112,16 +112,23 @@ Section Ev.
     eapply emits_nil_trans; [exact L12|apply e_inv_update].
   Qed.
 
-  Lemma e_kubectl_apply s l : emits s (fst (kubectl_apply sc s l)) [].
+  Lemma e_ssa_patch l s n : emits s (fst (ssa_patch sc s l n)) [].
   Proof.
-    unfold kubectl_apply. cbv zeta. destruct (ssa_mode sc).
-    - destruct (faulted sc _); cbn [fst].
-      + eapply emits_nil_trans; [apply e_maybe_cancel|apply emits_log_req].
-      + destruct (find_obj _ _); destruct (match o_dry (sc_opts sc) with DServer => true | _ => false end); cbn [fst];
-          (eapply emits_nil_trans; [apply e_maybe_cancel|]);
-          first [apply emits_log_req | (eapply emits_nil_trans; [apply e_set_cl|apply emits_log_req])].
-    - pose proof (e_get_obj s (l_id l)) as G. destruct (get_obj sc s (l_id l)) as [s1 g]. cbn [fst] in G.
-      destruct g; cbn [fst]; try exact G.
+    unfold ssa_patch. cbv zeta.
+    destruct (faulted sc (FStream _ _)); cbn [fst];
+      [eapply emits_nil_trans; [apply e_maybe_cancel|apply emits_log_req]|].
+    destruct (faulted sc (FApply _)); cbn [fst].
+    + eapply emits_nil_trans; [apply e_maybe_cancel|apply emits_log_req].
+    + destruct (find_obj _ _); destruct (match o_dry (sc_opts sc) with DServer => true | _ => false end); cbn [fst];
+        (eapply emits_nil_trans; [apply e_maybe_cancel|]);
+        first [apply emits_log_req | (eapply emits_nil_trans; [apply e_set_cl|apply emits_log_req])].
+  Qed.
+
+  Lemma e_csa_apply l s : emits s (fst (csa_apply sc s l)) [].
+  Proof.
+    unfold csa_apply. cbv zeta.
+    pose proof (e_get_obj s (l_id l)) as G. destruct (get_obj sc s (l_id l)) as [s1 g]. cbn [fst] in G.
+    - destruct g; cbn [fst]; try exact G.
       + destruct (is_dry _); cbn [fst]; [exact G|].
         destruct (faulted sc _); cbn [fst];
           (eapply emits_nil_trans; [exact G|]; eapply emits_nil_trans; [apply e_maybe_cancel|]);
@@ -131,6 +138,11 @@ Section Ev.
         destruct (faulted sc _); cbn [fst];
           (eapply emits_nil_trans; [exact G|]; eapply emits_nil_trans; [apply e_maybe_cancel|]);
           first [apply emits_log_req | (eapply emits_nil_trans; [apply e_set_cl|apply emits_log_req])].
+  Qed.
+
+  Lemma e_kubectl_apply s l : emits s (fst (kubectl_apply sc s l)) [].
+  Proof.
+    apply (kubectl_apply_step sc l (fun a b => emits a b []) emits_nil_trans (e_ssa_patch l) (e_csa_apply l)).
   Qed.
 
   Lemma e_policy_apply_filter s i : emits s (fst (policy_apply_filter sc s i)) [].
